@@ -38,4 +38,14 @@ m = dict(
     notes="Every check: ./check <ID> --tier quick|thorough; rebuilds the Coq cone of Props/<ID>.v and runs the Go harness against /repo's current working tree via -overlay. Known findings: /verif/known-findings.json.",
 )
 json.dump(m, open(os.path.join(ROOT, "MANIFEST.json"), "w"), indent=1)
+# known findings: merge per-property fragments props/<ID>/known-findings.json (committed; never written at check time)
+kf = dict(comment="Merged by tools/mkmanifest.py from props/*/known-findings.json. 'findings' (status open) suppress exactly the listed failing inputs/call sites with a KNOWN-FINDING line; 'fixed' entries suppress nothing.", findings=[], fixed=[])
+for pid in props:
+    fp = os.path.join(ROOT, "props", pid, "known-findings.json")
+    if os.path.exists(fp):
+        d = json.load(open(fp))
+        for k in d.get("findings", []):
+            k.setdefault("property", pid); k.setdefault("status", "open"); kf["findings"].append(k)
+        kf["fixed"] += d.get("fixed", [])
+json.dump(kf, open(os.path.join(ROOT, "known-findings.json"), "w"), indent=1)
 print("checks:", len(checks), "not_applicable:", len(notapp))
